@@ -17,24 +17,35 @@ variable {σ : Type}
 
 /-! ## restore -/
 
-/-- **C20_restore**: for every block of user code — any nesting of `with journal:` blocks, any
-    instrumented operations inside, exits taken normally or by an exception (`runBlock` runs
-    `__exit__` on both paths), exceptions swallowed by `try` or not — started from *any* class table
-    and any current journal: after the block the class table and the current journal are exactly
-    what they were before it.  Hypothesis: no journal object is re-entered while it is active
-    (`NoReentry`; without it the statement is false, see `C20_restore_needs_NoReentry`). -/
-theorem C20_restore (cfg : Cfg σ) (fuel : Nat) (b : Block σ) (w : World σ) (hn : NoReentry b) :
+/-- **C20_restore**: for every block of user code — any nesting of `with journal:` blocks (also
+    with the same journal object used again, nested or in sequence), any instrumented operations
+    inside, exits taken normally or by an exception (`runBlock` runs `__exit__` on both paths),
+    exceptions swallowed by `try` or not — started from *any* class table, any current journal and
+    any set of already active journals: after the block the class table and the current journal
+    are exactly what they were before it.  No hypothesis. -/
+theorem C20_restore (cfg : Cfg σ) (fuel : Nat) (b : Block σ) (w : World σ) :
     (runBlock cfg fuel b w).1.table = w.table ∧ (runBlock cfg fuel b w).1.current = w.current :=
-  block_restore cfg fuel b w hn
+  block_restore cfg fuel b w
 
-/-- The hypothesis of `C20_restore` is needed: entering the *same* journal object inside its own
-    block leaves its wrappers installed (the second `__enter__` overwrites the captured table with
-    one that already contains the first layer of wrappers) and leaves it as the current journal.
-    (Defect D71 of /repo; the model transcribes the code as it is.) -/
-theorem C20_restore_needs_NoReentry (cfg : Cfg Unit) (fuel : Nat) :
-    let w := (runBlock cfg fuel (.withJ 0 (.withJ 0 .skip)) (initialWorld ())).1
+/-- every journal's `active` flag is restored as well -/
+theorem C20_restore_active (cfg : Cfg σ) (fuel : Nat) (b : Block σ) (w : World σ) (i : Nat) :
+    ((runBlock cfg fuel b w).1.journals i).active = (w.journals i).active :=
+  block_active_restore cfg fuel b w i
+
+/-- entering a journal object that is already active is refused: RuntimeError, the body does not
+    run, nothing changes -/
+theorem C20_reentry_refused (cfg : Cfg σ) (fuel j : Nat) (body : Block σ) (w : World σ)
+    (h : (w.journals j).active = true) :
+    runBlock cfg fuel (.withJ j body) w = (w, some enterExn) :=
+  runBlock_withJ_refused cfg fuel j body w h
+
+/-- The guard in `__enter__` is what makes `C20_restore` unconditional: without it (`enterRaw` is
+    `__enter__` after the guard; this was defect D71 of /repo) entering the same journal object
+    twice leaves its wrappers installed and leaves it as the current journal after both exits. -/
+theorem C20_guard_needed :
+    let w := exit 0 (exit 0 (enterRaw 0 (enterRaw 0 (initialWorld ()))))
     w.table 0 = .wrap 0 0 (.orig 0) ∧ w.current = some 0 := by
-  simp [runBlock, enter, exit, upd, initialWorld, pristine]
+  simp [enterRaw, exit, upd, initialWorld, pristine]
 
 /-- non-vacuity of `NoReentry`: three nested distinct journals, the same journal used twice in
     sequence, an exception inside -/
@@ -50,28 +61,31 @@ example : NoReentry (σ := Unit)
     same code with every `with journal:` removed on the un-wrapped table.  The IR state, the outcome
     (return value or exception) of every operation, the exception leaving the block and the
     sequence of original functions executed (with their receivers and outcomes) are equal.
-    Hypotheses: constructors return None (`InitNone`), the wrappers' `details` expressions do not
-    raise (`DetailsOk`; false of /repo for `Node(..., graph=g)`: defect D70, and needed:
-    `C20_transparent_needs_DetailsOk`).  Re-entry is allowed here. -/
+    Hypotheses: constructors return None (`InitNone`); the wrappers' `details` expressions do not
+    raise (`DetailsOk`; it was false of /repo for `Node(..., graph=g)`: defect D70, and it is needed:
+    `C20_transparent_needs_DetailsOk`); no `__enter__` of the block is refused, i.e. no journal
+    object is entered again while active (`NoReentry`, needed: `C20_transparent_needs_NoReentry`) and
+    the block's journals are not active when it starts. -/
 theorem C20_transparent (cfg : Cfg σ) (hinit : InitNone cfg) (hdet : DetailsOk cfg) (fuel : Nat)
-    (b : Block σ) (w : World σ) (hchain : Chain w.table) (hcap : CapturedOk w) :
+    (b : Block σ) (w : World σ) (hchain : Chain w.table) (hcap : CapturedOk w) (hn : NoReentry b)
+    (hfresh : ∀ j ∈ journalsOf b, (w.journals j).active = false) :
     let r := runBlock cfg fuel b w
     let r0 := runBlock cfg fuel (strip b) { w with table := pristine }
     r.1.ir = r0.1.ir ∧ r.1.log = r0.1.log ∧ r.2 = r0.2 ∧
       r.1.trace.filter isCall = r0.1.trace.filter isCall := by
   have hrel : Rel w { w with table := pristine } := ⟨rfl, rfl, rfl, hchain, rfl⟩
-  have h := block_rel cfg hinit hdet fuel b w _ hrel hcap
+  have h := block_rel cfg hinit hdet fuel b w _ hrel hcap hn hfresh
   exact ⟨h.1.ir, h.1.log, h.2.2, h.1.calls⟩
 
 /-- the start of a program: nothing wrapped, no journal ever entered -/
 theorem C20_transparent_from_start (cfg : Cfg σ) (hinit : InitNone cfg) (hdet : DetailsOk cfg)
-    (fuel : Nat) (b : Block σ) (s : σ) :
+    (fuel : Nat) (b : Block σ) (s : σ) (hn : NoReentry b) :
     let r := runBlock cfg fuel b (initialWorld s)
     let r0 := runBlock cfg fuel (strip b) (initialWorld s)
     r.1.ir = r0.1.ir ∧ r.1.log = r0.1.log ∧ r.2 = r0.2 ∧
       r.1.trace.filter isCall = r0.1.trace.filter isCall := by
   have hcap : CapturedOk (initialWorld s) := by intro j t ht; simp [initialWorld] at ht
-  exact C20_transparent cfg hinit hdet fuel b (initialWorld s) chain_pristine hcap
+  exact C20_transparent cfg hinit hdet fuel b (initialWorld s) chain_pristine hcap hn (fun _ _ => rfl)
 
 /-- `DetailsOk` is needed: if the `details` expression of one wrapper raises (as `repr(node)` does
     in the wrapper of `Graph.append` when `Node.__init__` appends the half-built node), the
@@ -82,8 +96,17 @@ theorem C20_transparent_needs_DetailsOk :
     let b : Block Unit := .withJ 0 (.op (.call 21 5 .none fun o => .done o))
     (runBlock cfg 3 b (initialWorld ())).1.log = [.raise detailsExn] ∧
     (runBlock cfg 3 (strip b) (initialWorld ())).1.log = [.ret .none] := by
-  simp [runBlock, strip, runProg, dispatch, runImpl, runOrig, enter, exit, upd, initialWorld, pristine,
-    emit, kindOf, slots]
+  simp [runBlock, strip, runProg, dispatch, runImpl, runOrig, enter, enterRaw, exit, upd, initialWorld,
+    pristine, emit, kindOf, slots]
+
+/-- `NoReentry` is needed: the nested `__enter__` of an active journal raises. -/
+theorem C20_transparent_needs_NoReentry :
+    let cfg : Cfg Unit := { impl := fun _ _ _ => .done (.ret .none), owner := id,
+                            details := fun _ _ _ _ => true }
+    let b : Block Unit := .withJ 0 (.withJ 0 (.op (.done (.ret .none))))
+    (runBlock cfg 3 b (initialWorld ())).2 = some enterExn ∧
+    (runBlock cfg 3 (strip b) (initialWorld ())).2 = none := by
+  simp [runBlock, strip, runProg, enter, enterRaw, exit, upd, initialWorld]
 
 /-- `InitNone` is needed: `_init_wrapper` discards what the original returned. -/
 theorem C20_transparent_needs_InitNone :
@@ -92,8 +115,8 @@ theorem C20_transparent_needs_InitNone :
     let b : Block Unit := .withJ 0 (.op (.call 1 5 .none fun o => .done o))
     (runBlock cfg 3 b (initialWorld ())).1.log = [.ret .none] ∧
     (runBlock cfg 3 (strip b) (initialWorld ())).1.log = [.ret (.int 5)] := by
-  simp [runBlock, strip, runProg, dispatch, runImpl, runOrig, enter, exit, upd, initialWorld, pristine,
-    emit, kindOf, slots, record]
+  simp [runBlock, strip, runProg, dispatch, runImpl, runOrig, enter, enterRaw, exit, upd, initialWorld,
+    pristine, emit, kindOf, slots, record]
 
 /-- non-vacuity of `InitNone` and `DetailsOk`: constructors that call a method and return None,
     methods that return a value or raise depending on the state -/
@@ -111,27 +134,29 @@ example : DetailsOk (σ := Nat)
   fun _ _ _ _ => rfl
 
 /-- non-vacuity of `Chain` / `CapturedOk`: they hold at program start and inside two journals -/
-example : Chain (enter 1 (enter 0 (initialWorld ()))).table ∧ CapturedOk (enter 1 (enter 0 (initialWorld ()))) := by
+example : Chain (enterRaw 1 (enterRaw 0 (initialWorld ()))).table ∧
+    CapturedOk (enterRaw 1 (enterRaw 0 (initialWorld ()))) := by
   refine ⟨fun k => ⟨rfl, rfl, rfl⟩, ?_⟩
   intro j t ht
   by_cases h1 : j = 1
   · subst h1
-    simp [enter, upd] at ht
+    simp [enterRaw, upd] at ht
     subst ht
     exact fun k => ⟨rfl, rfl⟩
   · by_cases h0 : j = 0
     · subst h0
-      simp [enter, upd, initialWorld] at ht
+      simp [enterRaw, upd, initialWorld] at ht
       subst ht
       exact chain_pristine
-    · simp [enter, upd, initialWorld, h1, h0] at ht
+    · simp [enterRaw, upd, initialWorld, h1, h0] at ht
 
 /-! ## entries -/
 
-/-- **C20_entries**: for every journal `j` that is not active at the start and every block without
-    re-entry: the entries that `j` gains are exactly `expectedFor` of the events of the run — i.e.
-    one entry per instrumented call executed while `j` was entered, in program order, where
-    (as the code does it, Model/Journal.lean `expectedFor`)
+/-- **C20_entries**: for every journal `j` that is not active at the start and every block (no
+    further hypothesis on the block: a refused re-entry just raises): the entries that `j` gains are
+    exactly `expectedFor` of the events of the run — i.e. one entry per instrumented call executed
+    while `j` was entered, in program order, where (as the code does it, Model/Journal.lean
+    `expectedFor`)
     * a setter / method / container method contributes its entry at the moment it is *called*, before
       its body runs, whether it then returns or raises; the entry designates `self`, or the owning
       graph / node for container methods;
@@ -140,22 +165,22 @@ example : Chain (enter 1 (enter 0 (initialWorld ()))).table ∧ CapturedOk (ente
     * calls made while `j` is not entered contribute nothing.
     This holds simultaneously for every journal of a nest (the theorem is for arbitrary `j`). -/
 theorem C20_entries (cfg : Cfg σ) (hdet : DetailsOk cfg) (fuel : Nat) (j : Nat) (b : Block σ)
-    (w : World σ) (hchain : Chain w.table) (hj : ∀ k, (w.table k).cnt j = 0) (hn : NoReentry b) :
+    (w : World σ) (hchain : Chain w.table) (hj : ∀ k, (w.table k).cnt j = 0)
+    (hact : (w.journals j).active = false) :
     ∃ evs, (runBlock cfg fuel b w).1.trace = w.trace ++ evs ∧
       ((runBlock cfg fuel b w).1.journals j).entries =
         (w.journals j).entries ++ expectedFor cfg.owner j false evs := by
-  obtain ⟨evs, htr, he, _⟩ := block_entries cfg hdet fuel j b w false hchain hj hn (by simp)
+  obtain ⟨evs, htr, he, _⟩ := block_entries cfg hdet fuel j b w false hchain hj hact
   exact ⟨evs, htr, he⟩
 
-/-- a journal that is already entered around the block (and is not entered again inside it)
-    records the block's calls in the same way -/
+/-- a journal that is already entered around the block records the block's calls in the same way -/
 theorem C20_entries_active (cfg : Cfg σ) (hdet : DetailsOk cfg) (fuel : Nat) (j : Nat) (b : Block σ)
-    (w : World σ) (hchain : Chain w.table) (hj : ∀ k, (w.table k).cnt j = 1) (hn : NoReentry b)
-    (hnot : j ∉ journalsOf b) :
+    (w : World σ) (hchain : Chain w.table) (hj : ∀ k, (w.table k).cnt j = 1)
+    (hact : (w.journals j).active = true) :
     ∃ evs, (runBlock cfg fuel b w).1.trace = w.trace ++ evs ∧
       ((runBlock cfg fuel b w).1.journals j).entries =
         (w.journals j).entries ++ expectedFor cfg.owner j true evs := by
-  obtain ⟨evs, htr, he, _⟩ := block_entries cfg hdet fuel j b w true hchain hj hn (fun _ => hnot)
+  obtain ⟨evs, htr, he, _⟩ := block_entries cfg hdet fuel j b w true hchain hj hact
   exact ⟨evs, htr, he⟩
 
 /-- what a raising call contributes: a method that raises has been recorded -/
